@@ -139,8 +139,11 @@ def _havoc(key):
 ALL_GHOST = [_havoc(k) for k in list(GHOSTS) + list(WH)]
 
 
+MINE = {KEY}     # keys of the contracts these hooks serve (contracts/c02_remove_reactions_ctx_orph.py adds its own key)
+
+
 def _mine(eng):
-    return getattr(eng.cur_contract, "key", None) == KEY
+    return getattr(eng.cur_contract, "key", None) in MINE
 
 
 def _cur_reaction(eng, st):
